@@ -179,12 +179,12 @@ Proof.
     destruct (o_numty F) eqn:En.
     + destruct a as [| |z|t| |], b as [| |z'|t'| |]; try discriminate; cbn [nname dyv] in *;
         rewrite KNum_inj; (split; [intros E; do 2 apply app_inv_head in E; split; [reflexivity|apply S; exact E]
-                                  |intros [_ E]; f_equal; apply S; exact E]).
+                                  |intros [_ E]; apply S in E; rewrite E; reflexivity]).
     + destruct a as [| |z|t| |], b as [| |z'|t'| |]; try discriminate; cbn [nname dyv] in *; rewrite KNum_inj.
-      * split; [intros E; do 2 apply app_inv_head in E; split; [reflexivity|apply S; exact E]|intros [_ E]; f_equal; apply S; exact E].
+      * split; [intros E; do 2 apply app_inv_head in E; split; [reflexivity|apply S; exact E]|intros [_ E]; apply S in E; rewrite E; reflexivity].
       * split; [intros E; discriminate|intros [E _]; discriminate].
       * split; [intros E; discriminate|intros [E _]; discriminate].
-      * split; [intros E; do 2 apply app_inv_head in E; split; [reflexivity|apply S; exact E]|intros [_ E]; f_equal; apply S; exact E].
+      * split; [intros E; do 2 apply app_inv_head in E; split; [reflexivity|apply S; exact E]|intros [_ E]; apply S in E; rewrite E; reflexivity].
   - assert (o_numty F = false) as En.
     { unfold eff_sig in Es. destruct (o_sig F); [discriminate|]. destruct (o_numty F); [discriminate|reflexivity]. }
     rewrite En.
@@ -206,3 +206,181 @@ Lemma num_body_colon a : is_num a = true -> has_char 58%N (ntagH F (nname a) ++ 
 Proof. intros Ha. destruct a; try discriminate; unfold ntagH; destruct (o_numty F); reflexivity. Qed.
 
 End HashSide2.
+
+Section HashSide3.
+Variable F : opts.
+Variables priv rep : bool.
+Notation o := (hoptsF F priv rep).
+
+Definition not_bytes (a : atom) : bool := match a with ABytes _ => false | _ => true end.
+
+Lemma lowif_none_cases : lowif F (s2p "NONE") = s2p "NONE" \/ lowif F (s2p "NONE") = s2p "none".
+Proof. unfold lowif. destruct (o_case F); [right|left]; reflexivity. Qed.
+
+Lemma lowif_bool (b : bool) :
+  lowif F (if b then s2p "bool:true" else s2p "bool:false") = (if b then s2p "bool:true" else s2p "bool:false").
+Proof. unfold lowif. destruct (o_case F), b; reflexivity. Qed.
+
+Lemma pystr_eqb_false_neq s t : pystr_eqb s t = false -> s <> t.
+Proof. intros E ->. rewrite OptProofsBase.pystr_eqb_refl in E. discriminate. Qed.
+
+Lemma num_body_shape a : is_num a = true ->
+  exists c1 c2 r, ntagH F (nname a) ++ [58%N] ++ ntxt F a = c1 :: c2 :: r /\
+                  (c1 = 105%N \/ c1 = 102%N \/ (c1 = 110%N /\ c2 = 117%N)).
+Proof.
+  intros Ha. destruct a; try discriminate; unfold ntagH; destruct (o_numty F); cbn [nname s2p app];
+    eexists _, _, _; (split; [reflexivity|]); cbn; auto.
+Qed.
+
+(* the bodies of two non-bytes atoms *)
+Lemma body_key a b : not_bytes a = true -> not_bytes b = true -> tag_okF F a = true -> tag_okF F b = true ->
+  (lowif F (hbody F a) = lowif F (hbody F b) <-> akey F a = akey F b).
+Proof.
+  intros Na Nb Ta Tb.
+  (* a str against a structured body *)
+  assert (Hstr : forall s x, tag_okS F s = true -> has_char 58%N x = true \/ x = lowif F (s2p "NONE") -> lowif F s <> x).
+  { intros s x Hs [Hx|Hx] E; unfold tag_okS in Hs; apply andb_true_iff in Hs as [H1 H2].
+    - rewrite <- E, lowif_has_colon in Hx. rewrite Hx in H1. discriminate.
+    - subst x. rewrite E, OptProofsBase.pystr_eqb_refl in H2. discriminate. }
+  assert (Hnum : forall c, is_num c = true -> has_char 58%N (lowif F (hbody F c)) = true).
+  { intros c Hc. rewrite lowif_num_body by exact Hc. apply num_body_colon, Hc. }
+  assert (Hkn : forall c, is_num c = true -> exists t v, akey F c = KNum t v).
+  { intros c Hc. destruct c; try discriminate; cbn [akey]; destruct (eff_sig F); eexists _, _; reflexivity. }
+  destruct a as [|x|z|t|s|s], b as [|y|z'|t'|s'|s']; try discriminate; cbn [tag_okF] in Ta, Tb.
+  (* None *)
+  - split; reflexivity.
+  - cbn [hbody akey]. rewrite lowif_bool. split; [|discriminate].
+    destruct lowif_none_cases as [-> | ->]; destruct y; discriminate.
+  - split.
+    + intros E. rewrite (lowif_num_body F (AInt z')) in E by reflexivity.
+      destruct (num_body_shape (AInt z') eq_refl) as (c1 & c2 & r & Esh & Hc). rewrite Esh in E. cbn [hbody] in E.
+      destruct lowif_none_cases as [E0 | E0]; rewrite E0 in E; inversion E; destruct Hc as [?|[?|[? ?]]]; congruence.
+    + intros E. destruct (Hkn (AInt z') eq_refl) as (? & ? & E'). rewrite E' in E. discriminate.
+  - split.
+    + intros E. rewrite (lowif_num_body F (AHalf t')) in E by reflexivity.
+      destruct (num_body_shape (AHalf t') eq_refl) as (c1 & c2 & r & Esh & Hc). rewrite Esh in E. cbn [hbody] in E.
+      destruct lowif_none_cases as [E0 | E0]; rewrite E0 in E; inversion E; destruct Hc as [?|[?|[? ?]]]; congruence.
+    + intros E. destruct (Hkn (AHalf t') eq_refl) as (? & ? & E'). rewrite E' in E. discriminate.
+  - cbn [hbody akey]. split; [|discriminate]. intros E. symmetry in E. exfalso. revert E. apply Hstr; auto.
+  (* Bool *)
+  - cbn [hbody akey]. rewrite lowif_bool. split; [|discriminate].
+    destruct lowif_none_cases as [-> | ->]; destruct x; discriminate.
+  - cbn [hbody akey]. rewrite !lowif_bool. destruct x, y; split; intros E; try reflexivity; discriminate.
+  - split.
+    + intros E. rewrite (lowif_num_body F (AInt z')) in E by reflexivity.
+      destruct (num_body_shape (AInt z') eq_refl) as (c1 & c2 & r & Esh & Hc). rewrite Esh in E. cbn [hbody] in E.
+      rewrite lowif_bool in E. destruct x; inversion E; destruct Hc as [?|[?|[? ?]]]; congruence.
+    + intros E. destruct (Hkn (AInt z') eq_refl) as (? & ? & E'). rewrite E' in E. discriminate.
+  - split.
+    + intros E. rewrite (lowif_num_body F (AHalf t')) in E by reflexivity.
+      destruct (num_body_shape (AHalf t') eq_refl) as (c1 & c2 & r & Esh & Hc). rewrite Esh in E. cbn [hbody] in E.
+      rewrite lowif_bool in E. destruct x; inversion E; destruct Hc as [?|[?|[? ?]]]; congruence.
+    + intros E. destruct (Hkn (AHalf t') eq_refl) as (? & ? & E'). rewrite E' in E. discriminate.
+  - cbn [hbody akey]. split; [|discriminate]. intros E. symmetry in E. exfalso. revert E. apply Hstr; auto.
+    left. rewrite lowif_bool. destruct x; reflexivity.
+  (* Int *)
+  - split.
+    + intros E. rewrite (lowif_num_body F (AInt z)) in E by reflexivity.
+      destruct (num_body_shape (AInt z) eq_refl) as (c1 & c2 & r & Esh & Hc). rewrite Esh in E. cbn [hbody] in E.
+      destruct lowif_none_cases as [E0 | E0]; rewrite E0 in E; inversion E; destruct Hc as [?|[?|[? ?]]]; congruence.
+    + intros E. destruct (Hkn (AInt z) eq_refl) as (? & ? & E'). rewrite E' in E. discriminate.
+  - split.
+    + intros E. rewrite (lowif_num_body F (AInt z)) in E by reflexivity.
+      destruct (num_body_shape (AInt z) eq_refl) as (c1 & c2 & r & Esh & Hc). rewrite Esh in E. cbn [hbody] in E.
+      rewrite lowif_bool in E. destruct y; inversion E; destruct Hc as [?|[?|[? ?]]]; congruence.
+    + intros E. destruct (Hkn (AInt z) eq_refl) as (? & ? & E'). rewrite E' in E. discriminate.
+  - rewrite !lowif_num_body by reflexivity. apply num_body_key; reflexivity.
+  - rewrite !lowif_num_body by reflexivity. apply num_body_key; reflexivity.
+  - split.
+    + intros E. symmetry in E. exfalso. revert E. apply Hstr; auto.
+    + intros E. destruct (Hkn (AInt z) eq_refl) as (? & ? & E'). rewrite E' in E. discriminate.
+  (* Half *)
+  - split.
+    + intros E. rewrite (lowif_num_body F (AHalf t)) in E by reflexivity.
+      destruct (num_body_shape (AHalf t) eq_refl) as (c1 & c2 & r & Esh & Hc). rewrite Esh in E. cbn [hbody] in E.
+      destruct lowif_none_cases as [E0 | E0]; rewrite E0 in E; inversion E; destruct Hc as [?|[?|[? ?]]]; congruence.
+    + intros E. destruct (Hkn (AHalf t) eq_refl) as (? & ? & E'). rewrite E' in E. discriminate.
+  - split.
+    + intros E. rewrite (lowif_num_body F (AHalf t)) in E by reflexivity.
+      destruct (num_body_shape (AHalf t) eq_refl) as (c1 & c2 & r & Esh & Hc). rewrite Esh in E. cbn [hbody] in E.
+      rewrite lowif_bool in E. destruct y; inversion E; destruct Hc as [?|[?|[? ?]]]; congruence.
+    + intros E. destruct (Hkn (AHalf t) eq_refl) as (? & ? & E'). rewrite E' in E. discriminate.
+  - rewrite !lowif_num_body by reflexivity. apply num_body_key; reflexivity.
+  - rewrite !lowif_num_body by reflexivity. apply num_body_key; reflexivity.
+  - split.
+    + intros E. symmetry in E. exfalso. revert E. apply Hstr; auto.
+    + intros E. destruct (Hkn (AHalf t) eq_refl) as (? & ? & E'). rewrite E' in E. discriminate.
+  (* Str *)
+  - cbn [hbody akey]. split; [|discriminate]. intros E. exfalso. revert E. apply Hstr; auto.
+  - cbn [hbody akey]. split; [|discriminate]. intros E. exfalso. revert E. apply Hstr; auto.
+    left. rewrite lowif_bool. destruct y; reflexivity.
+  - split.
+    + intros E. exfalso. revert E. apply Hstr; auto.
+    + intros E. destruct (Hkn (AInt z') eq_refl) as (? & ? & E'). rewrite E' in E. discriminate.
+  - split.
+    + intros E. exfalso. revert E. apply Hstr; auto.
+    + intros E. destruct (Hkn (AHalf t') eq_refl) as (? & ? & E'). rewrite E' in E. discriminate.
+  - cbn [hbody akey]. split; [intros ->; reflexivity|intros E; inversion E; reflexivity].
+Qed.
+
+End HashSide3.
+
+Section HashSide4.
+Variable F : opts.
+Variables priv rep : bool.
+Notation o := (hoptsF F priv rep).
+
+Lemma lowif_pre_inj pre x y : lowif F (pre ++ x) = lowif F (pre ++ y) <-> lowif F x = lowif F y.
+Proof. rewrite !lowif_app. split; [apply app_inv_head|intros ->; reflexivity]. Qed.
+
+Lemma bytes_as_str s : o_strty F = true ->
+  ser_atom o (ABytes s) = ser_atom o (AStr s) /\ akey F (ABytes s) = akey F (AStr s) /\ tag_okF F (ABytes s) = tag_okF F (AStr s).
+Proof.
+  intros E. rewrite !ser_form. unfold hpre, spre, bpre. cbn [akey tag_okF hbody]. rewrite E. auto.
+Qed.
+
+Lemma akey_bytes_other s b : o_strty F = false -> not_bytes b = true -> akey F (ABytes s) <> akey F b.
+Proof.
+  intros E Nb. destruct b; try discriminate; cbn [akey]; rewrite ?E; try discriminate; destruct (eff_sig F); discriminate.
+Qed.
+
+Lemma ser_bytes_other s b : o_strty F = false -> not_bytes b = true -> ser_atom o (ABytes s) <> ser_atom o b.
+Proof.
+  intros E Nb. rewrite !ser_form. unfold hpre, spre, bpre. rewrite E.
+  destruct b; try discriminate; rewrite !lowif_app; unfold lowif at 1 3; destruct (o_case F); discriminate.
+Qed.
+
+Theorem ser_atom_key a b : tag_okF F a = true -> tag_okF F b = true ->
+  (ser_atom o a = ser_atom o b <-> eqvA F a b).
+Proof.
+  unfold eqvA. intros Ta Tb.
+  assert (Hnb : forall a b, not_bytes a = true -> not_bytes b = true -> tag_okF F a = true -> tag_okF F b = true ->
+                (ser_atom o a = ser_atom o b <-> akey F a = akey F b)).
+  { intros x y Nx Ny Tx Ty. rewrite !ser_form.
+    replace (hpre F x) with (spre F) by (destruct x; try discriminate; reflexivity).
+    replace (hpre F y) with (spre F) by (destruct y; try discriminate; reflexivity).
+    rewrite lowif_pre_inj. apply body_key; assumption. }
+  destruct (not_bytes a) eqn:Na, (not_bytes b) eqn:Nb.
+  - apply Hnb; assumption.
+  - destruct b as [| | | | |s]; try discriminate. destruct (o_strty F) eqn:Es.
+    + destruct (bytes_as_str s Es) as (-> & -> & Et). rewrite Et in Tb. apply Hnb; auto.
+    + split; intros E; exfalso; [eapply ser_bytes_other|eapply akey_bytes_other]; try symmetry; eauto.
+  - destruct a as [| | | | |s]; try discriminate. destruct (o_strty F) eqn:Es.
+    + destruct (bytes_as_str s Es) as (-> & -> & Et). rewrite Et in Ta. apply Hnb; auto.
+    + split; intros E; exfalso; [eapply ser_bytes_other|eapply akey_bytes_other]; eauto.
+  - destruct a as [| | | | |s]; try discriminate. destruct b as [| | | | |s']; try discriminate.
+    rewrite !ser_form. cbn [hpre hbody akey]. rewrite lowif_pre_inj.
+    split; [intros ->; reflexivity|intros E; inversion E; reflexivity].
+Qed.
+
+(* for an injective hasher: the hashes of two atoms are equal exactly when the atoms are
+   equivalent under the options *)
+Corollary hash_atom_key (H : pystr -> pystr) : (forall s t, H s = H t -> s = t) ->
+  forall a b, tag_okF F a = true -> tag_okF F b = true ->
+  (hash_atom H o a = hash_atom H o b <-> eqvA F a b).
+Proof.
+  intros Hinj a b Ta Tb. rewrite <- (ser_atom_key a b Ta Tb). unfold hash_atom.
+  split; [apply Hinj|intros ->; reflexivity].
+Qed.
+
+End HashSide4.
